@@ -190,7 +190,8 @@ inductive Sys
   | getDoubleQuotes      -- '$get_double_quotes'(Value)
   | getUnknown           -- '$get_unknown'(Value)
   | isStoEnabled         -- '$is_sto_enabled'(Value)
-  | getAnswerWriteOptions -- answer_write_options(Value)
+  | getAnswerWriteOptions -- answer_write_options(Value), corrected: ( bb_get(K, V0) -> Value = V0 ; Value = [] )
+  | getAnswerWriteOptionsPinned -- as pinned: ( bb_get(K, Value) -> true ; Value = [] )
   | setDoubleQuotes (a : String)  -- '$set_double_quotes'(a)
   | setUnknown (a : String)       -- '$set_unknown'(a)
   | setSto | setNsto | setStoError -- '$set_sto_as_unify' …
@@ -255,6 +256,15 @@ def runSys (s : Sys) (a : Args) (st : St) : SysRes :=
   | .getUnknown => unifyValue a st.unk.toAtom st
   | .isStoEnabled => unifyValue a st.oc.flagValue st
   | .getAnswerWriteOptions => unifyValue a (answerWriteOptions st) st
+  | .getAnswerWriteOptionsPinned =>
+    -- `bb_get(Key, Value)` fails both when nothing is stored and when the stored term does not
+    -- unify with `Value`; in both cases the else branch `Value = []` is taken
+    match st.awo with
+    | some t =>
+      match unifyArg a.v t with
+      | some v' => .ok { a with v := v' } st
+      | none => unifyValue a nil st
+    | none => unifyValue a nil st
   | .setDoubleQuotes x =>
     match sysSetDoubleQuotes (A x) st with
     | some st' => .ok a st'
@@ -359,13 +369,14 @@ def cpfPinned : List Clause := [
   ⟨none, none, [eqeq flag (A "min_integer"), cut, fail]⟩,
   ⟨none, none, [eqeq flag (A "occurs_check"), cut, sys .isStoEnabled]⟩,
   ⟨some (A "occurs_check"), none, [sys .isStoEnabled]⟩,
-  ⟨none, none, [eqeq flag (A "answer_write_options"), cut, sys .getAnswerWriteOptions]⟩,
-  ⟨some (A "answer_write_options"), none, [sys .getAnswerWriteOptions]⟩,
+  ⟨none, none, [eqeq flag (A "answer_write_options"), cut, sys .getAnswerWriteOptionsPinned]⟩,
+  ⟨some (A "answer_write_options"), none, [sys .getAnswerWriteOptionsPinned]⟩,
   ⟨none, none, [isAtom flag, throw .domFlag]⟩,
   ⟨none, none, [nonvar flag, throw .typeAtom]⟩ ]
 
 open Goal Arg in
-/-- `cpfPinned` with the one-token correction of finding C44-1 (`Value = toward_zero`). -/
+/-- `cpfPinned` with the one-token correction of finding C44-1 (`Value = toward_zero`) and the
+    corrected `answer_write_options/1` of finding C44-5. -/
 def cpfFixed : List Clause := [
   ⟨none, none, [eqeq flag (A "max_arity"), cut, unif value (.int 255)]⟩,
   ⟨some (A "max_arity"), some (.int 255), []⟩,
